@@ -1,6 +1,9 @@
 import SpoxModel.Lemmas.Scope
 import SpoxModel.Lemmas.Named
 import SpoxModel.Lemmas.BuildIR
+import SpoxModel.Lemmas.InlineCheck
+import SpoxModel.Model.InternalReq
+import SpoxModel.Generated.IdentityTypes
 import SpoxModel.Model.Naming
 import SpoxModel.Generated.BuildFlags
 /-!
@@ -296,6 +299,108 @@ def outcome {α} : Except Err α → Option Err
   | .error e => some e
 
 -- a user name colliding with a generated one raises; a clean sequence does not
+/-! ### Ill-typed calls are refused: the argument check of an inlined model (`_Inline.infer_output_types`)
+
+`InlineCheck.accepts` is the loop over `zip(graph.input, inputs)` with `Types.subtype` (= `_subtype`,
+`Shape.__le__`, `Natural.__le__`); tie H: run against the real `inline(model)(…)` on the whole
+shape-boundary grid of every run. The statements hold for ANY dtype table. -/
+
+open InlineCheck Types in
+/-- **An accepted tensor argument has the declared rank** (and an element type the table relates to the
+    declared one, and the same constant wherever both dimensions are constants) — at every position of
+    the call. In particular a scalar never passes for a declared rank ≥ 1, nor the other way round. -/
+theorem inline_arg_rank (tbl : DtypeTable) (decls : List Ty) (args : List (Option Ty))
+    (h : accepts tbl decls args = true) (i e e' : Nat) (as ds : List Natural)
+    (hd : decls[i]? = some (.tensor e' (some ds)))
+    (ha : args[i]? = some (some (.tensor e (some as)))) :
+    (e = e' ∨ tbl.sub e e' = true) ∧ as.length = ds.length ∧
+      ∀ (j n m : Nat), as[j]? = some (Natural.const n) → ds[j]? = some (Natural.const m) → n = m :=
+  subtype_tensor_known tbl (accepts_get tbl h i _ _ hd ha)
+
+open InlineCheck Types in
+/-- **The rank-0 boundary, both directions**: a scalar argument for an input declared with rank ≥ 1 makes
+    the check raise, and so does an argument of rank ≥ 1 for a declared scalar — whatever the element
+    types and the table. -/
+theorem inline_scalar_boundary (tbl : DtypeTable) (e e' : Nat) (d : Natural) (ds : List Natural)
+    (rest : List Ty) (more : List (Option Ty)) :
+    accepts tbl (.tensor e' (some (d :: ds)) :: rest) (some (.tensor e (some [])) :: more) = false ∧
+    accepts tbl (.tensor e' (some []) :: rest) (some (.tensor e (some (d :: ds))) :: more) = false := by
+  constructor
+  · cases hacc : accepts tbl (.tensor e' (some (d :: ds)) :: rest) (some (.tensor e (some [])) :: more) with
+    | false => rfl
+    | true => exact absurd (inline_arg_rank tbl _ _ hacc 0 e e' [] (d :: ds) rfl rfl).2.1 (by simp)
+  · cases hacc : accepts tbl (.tensor e' (some []) :: rest) (some (.tensor e (some (d :: ds))) :: more) with
+    | false => rfl
+    | true => exact absurd (inline_arg_rank tbl _ _ hacc 0 e e' (d :: ds) [] rfl rfl).2.1 (by simp)
+
+open InlineCheck Types in
+/-- **Rank r vs r ± 1 and constant vs another constant** are refused as well (known ranks). -/
+theorem inline_rank_or_const_mismatch_refused (tbl : DtypeTable) (e e' : Nat) (as ds : List Natural)
+    (rest : List Ty) (more : List (Option Ty))
+    (hbad : as.length ≠ ds.length ∨
+      ∃ (j n m : Nat), as[j]? = some (Natural.const n) ∧ ds[j]? = some (Natural.const m) ∧ n ≠ m) :
+    accepts tbl (.tensor e' (some ds) :: rest) (some (.tensor e (some as)) :: more) = false := by
+  cases hacc : accepts tbl (.tensor e' (some ds) :: rest) (some (.tensor e (some as)) :: more) with
+  | false => rfl
+  | true =>
+    have h := inline_arg_rank tbl _ _ hacc 0 e e' as ds rfl rfl
+    rcases hbad with hb | ⟨j, n, m, h1, h2, hne⟩
+    · exact absurd h.2.1 hb
+    · exact absurd (h.2.2 j n m h1 h2) hne
+
+/-! ### spox's own Identity nodes are valid at the model's opset (`_Introduce.opset_req`)
+
+`InternalReq.introReq` is the requirement of the internal forwarding operator (tie H: the real `opset_req` of
+`intros(...)` nodes for every combination of value kinds up to length 3, every run); the versions from which
+ONNX's `Identity` accepts tensors / sequences / optionals are generated from `onnx.defs` on every run (tie G). -/
+
+open InternalReq in
+/-- If `Identity` takes tensors and sequences from some version ≤ 14 on and optionals from some version ≤ 16
+    on, then at ANY model opset that meets the internal operator's requirement every forwarded value — whatever
+    mix of tensors, sequences, optionals, untyped values — is accepted by the `Identity` node it is built into. -/
+theorem intro_identity_accepts (mt ms mo : Nat) (ht : mt ≤ 14) (hs : ms ≤ 14) (ho : mo ≤ 16)
+    (ks : List Kind) (k : Kind) (hk : k ∈ ks) (opset : Nat) (hreq : introReq ks ≤ opset) :
+    identityMin mt ms mo k ≤ opset := by
+  have hge : 14 ≤ introReq ks := by unfold introReq; split <;> omega
+  cases k with
+  | optional =>
+    have hany : ks.any (· == Kind.optional) = true := List.any_eq_true.mpr ⟨.optional, hk, by simp⟩
+    have h16 : introReq ks = 16 := by simp [introReq, hany]
+    simp only [identityMin]; omega
+  | untyped => simp only [identityMin]; omega
+  | tensor => simp only [identityMin]; omega
+  | seq => simp only [identityMin]; omega
+
+open Generated.IdentityTypes in
+/-- generated obligation (tie G): the installed ONNX's `Identity` meets those bounds -/
+theorem generated_identity_versions_ok : minTensor ≤ 14 ∧ minSeq ≤ 14 ∧ minOptional ≤ 16 := by decide
+
+open InternalReq Generated.IdentityTypes in
+/-- **The Identity nodes spox emits for requested outputs / `intros` are valid for every forwarded value**, at
+    every model opset ≥ the operator's own requirement (the model's opset is the maximum of all requirements). -/
+theorem intro_identity_valid (ks : List Kind) (k : Kind) (hk : k ∈ ks) (opset : Nat)
+    (hreq : introReq ks ≤ opset) : identityMin minTensor minSeq minOptional k ≤ opset :=
+  intro_identity_accepts _ _ _ generated_identity_versions_ok.1 generated_identity_versions_ok.2.1
+    generated_identity_versions_ok.2.2 ks k hk opset hreq
+
+open Generated.IdentityTypes in
+/-- the code before fix 8b10170 asked for opset 14 whatever the values: not enough for an optional -/
+theorem intro_req_14_counterexample : ¬ (minOptional ≤ 14) := by decide
+
+open InternalReq in
+example : introReq [.tensor, .optional] = 16 ∧ introReq [.tensor, .seq, .untyped] = 14 ∧ introReq [] = 14 := by decide
+
+/-! non-vacuity: a symbolic / anonymous / unknown-rank argument IS accepted (compatibility, not equality) -/
+open InlineCheck Types in
+example : accepts ⟨fun _ => none, fun _ => none, fun a b => a == b⟩
+    [.tensor 7 (some [.const 2, .const 3])] [some (.tensor 7 (some [.unk "N", .const 3]))] = true := by decide
+open InlineCheck Types in
+example : accepts ⟨fun _ => none, fun _ => none, fun a b => a == b⟩
+    [.tensor 7 (some [.const 2, .const 3]), .tensor 7 (some [])] [some (.tensor 7 none), none] = true := by decide
+open InlineCheck Types in
+example : accepts ⟨fun _ => none, fun _ => none, fun a b => a == b⟩
+    [.tensor 7 (some [.const 2])] [some (.tensor 7 (some []))] = false := by decide
+
 example : outcome (run {} [.set "Abs_0_Y" 1, .set "Abs_0_Y" 2]) = some .scope := by decide
 example : outcome (run {} [.set "x" 1, .reserve "Inline_0__x", .set "y" 2, .push, .set "z" 3, .pop]) = none := by
   decide
